@@ -31,6 +31,7 @@ Ltac pcbn := cbn [set_buf set_full set_fin set_have drop_buf buf bytes full saw_
                   a_relay a_dead a_pending a_consumed a_written a_eof a_shut a_full
                   with_a with_err acc0 fst snd] in *.
 
+Ltac csplit := repeat match goal with |- _ /\ _ => split end.
 Ltac rcbn := cbn [r_oc r_cache r_p r_ret r_eff mkres fst snd] in *.
 
 Lemma Mid_set_have m relay p a : Mid m relay p a -> Mid m relay (set_have p true) a.
@@ -70,6 +71,14 @@ Lemma mem_only_counts_fold m es c : mem_only es -> fold_left (mon_eff m) es c = 
 Proof. apply fold_mem_only. Qed.
 
 (* ---- iv_fd_pump_try_input ---- *)
+
+Lemma mon_in_again m c req :
+  c_ok c = true -> c_err c = false -> a_eof (c_a c) = false -> mfull m (c_a c) = false ->
+  req = min_req m (c_a c) -> mon_eff m c (EIn req IAgain) = c.
+Proof.
+  intros Hok Herr Heof Hf Hr. cbn [mon_eff]. rewrite Herr, Heof, Hf, Hr, Z.eqb_refl. cbn [negb andb].
+  apply with_a_id, Hok.
+Qed.
 
 Lemma min_req_in_req m relay p a : Mid m relay p a -> in_req m p = min_req m a.
 Proof. intros []. unfold in_req, min_req. destruct m; [rewrite md_bytes0|]; reflexivity. Qed.
@@ -173,10 +182,10 @@ Proof.
       * exact md_shut0.
       * unfold mfull in *. pcbn. destruct m; cbn [is_sp negb andb].
         -- rewrite zlen_app, md_bytes0. reflexivity.
-        -- rewrite <- md_full0. exact Hfull0.
+        -- rewrite <- md_full0. symmetry. exact Hfull0.
       * intros -> Hf. cbn in Hf. congruence.
       * intros _. exact Hhave0.
-    + split; [left; split; reflexivity|]. unfold heldb in *. pcbn. rewrite Hhave0 in *. lia.
+    + split; [left; split; [reflexivity|first [exact Herr|reflexivity]]|]. unfold heldb in *. pcbn. rewrite Hhave0 in *. lia.
   - (* end of file *)
     pcbn. destruct (bytes p0 =? 0) eqn:Hz.
     + apply Z.eqb_eq in Hz.
@@ -188,17 +197,16 @@ Proof.
       destruct relay; cbn [fold_left mon_eff]; pcbn.
       * rewrite Herr, Hrel, Hnil, Hshut0. cbn [negb andb isnil Z.eqb]. rewrite Hok. cbn [n_alloc n_free].
         split; [reflexivity|]. split; [reflexivity|]. split.
-        -- destruct HM0. constructor; pcbn; try assumption.
+        -- destruct HM0. rewrite ?Hnil in *. constructor; pcbn; try assumption; try reflexivity.
            ++ right. right. repeat split; auto.
-           ++ cbn. lia.
-           ++ rewrite md_full0. unfold mfull. pcbn. reflexivity.
-        -- split; [left; split; reflexivity|]. unfold heldb in *. pcbn. rewrite Hhave0 in *. lia.
+           ++ rewrite md_full0. unfold mfull. pcbn. rewrite ?Hnil. reflexivity.
+        -- split; [left; split; [reflexivity|first [exact Herr|reflexivity]]|]. unfold heldb in *. pcbn. rewrite Hhave0 in *. lia.
       * rewrite Hok. cbn [n_alloc n_free].
         split; [reflexivity|]. split; [reflexivity|]. split.
-        -- destruct HM0. constructor; pcbn; try assumption.
+        -- destruct HM0. rewrite ?Hnil in *. constructor; pcbn; try assumption; try reflexivity.
            ++ right. right. repeat split; auto.
-           ++ rewrite md_full0. unfold mfull. pcbn. reflexivity.
-        -- split; [left; split; reflexivity|]. unfold heldb in *. pcbn. rewrite Hhave0 in *. lia.
+           ++ rewrite md_full0. unfold mfull. pcbn. rewrite ?Hnil. reflexivity.
+        -- split; [left; split; [reflexivity|first [exact Herr|reflexivity]]|]. unfold heldb in *. pcbn. rewrite Hhave0 in *. lia.
     + apply Z.eqb_neq in Hz.
       assert (Hnn : a_pending (c_a c) <> []).
       { destruct HM0. intros E. rewrite E in md_bytes0. cbn in md_bytes0. lia. }
@@ -209,8 +217,7 @@ Proof.
       * destruct HM0. constructor; pcbn; try assumption.
         -- right. left. repeat split; auto.
         -- rewrite md_shut0, Hfin0. cbn. rewrite !andb_false_r. reflexivity.
-        -- rewrite md_full0. unfold mfull. pcbn. reflexivity.
-      * split; [left; split; reflexivity|]. unfold heldb in *. pcbn. rewrite Hhave0 in *. lia.
+      * split; [left; split; [reflexivity|first [exact Herr|reflexivity]]|]. unfold heldb in *. pcbn. rewrite Hhave0 in *. lia.
   - (* would block *)
     destruct (is_sp m && negb (bytes p0 =? 0)) eqn:Hsp.
     + apply andb_true_iff in Hsp. destruct Hsp as [Hsp Hz]. apply negb_true_iff, Z.eqb_neq in Hz.
@@ -218,8 +225,8 @@ Proof.
       { destruct HM0. intros E. rewrite E in md_bytes0. cbn in md_bytes0. lia. }
       set (v := match o_fion o with Some v => v | None => 1 end).
       pcbn. rewrite fold_app, (fold_mem_only m es0) by exact Hmem. rewrite fold_app, FL.
-      cbn [fold_left mon_eff]. rewrite PRE. pcbn. rewrite with_a_id by (rewrite andb_true_r; exact Hok).
-      cbn [mon_eff]. pcbn. rewrite Herr, Hsp, Heof. apply isnil_false in Hnn. rewrite Hnn. cbn [negb andb].
+      rewrite (mon_in_again m c _ Hok Herr Heof Hmf Hreq).
+      cbn [fold_left mon_eff]. pcbn. rewrite Herr, Hsp, Heof. apply isnil_false in Hnn. rewrite Hnn. cbn [negb andb].
       rewrite Hok. apply isnil_false in Hnn.
       rewrite !n_alloc_app, !n_free_app, LA, LF. cbn [n_alloc n_free].
       assert (Hsel : (if 0 <? v then set_full p0 true else p0) = set_full p0 (0 <? v)).
@@ -227,14 +234,15 @@ Proof.
       rewrite Hsel.
       split; [reflexivity|]. split; [reflexivity|]. split.
       * destruct m; [discriminate|]. destruct HM0. constructor; pcbn; try assumption.
+        -- left. split; [exact Hfin0|reflexivity].
         -- unfold mfull in *. pcbn. rewrite <- md_full0, Hfull0. reflexivity.
         -- intros _ _. exact Hnn.
-      * split; [left; split; reflexivity|]. unfold heldb in *. pcbn. rewrite Hhave0 in *. lia.
+      * split; [left; split; [reflexivity|first [exact Herr|reflexivity]]|]. unfold heldb in *. pcbn. rewrite Hhave0 in *. lia.
     + pcbn. rewrite fold_app, (fold_mem_only m es0) by exact Hmem. rewrite FL.
-      cbn [mon_eff]. rewrite PRE. pcbn. rewrite with_a_id by (rewrite andb_true_r; exact Hok).
+      rewrite (mon_in_again m c _ Hok Herr Heof Hmf Hreq).
       rewrite n_alloc_app, n_free_app, LA, LF.
       split; [reflexivity|]. split; [exact Hok|]. split; [exact HM0|].
-      split; [left; split; [reflexivity|exact Herr]|]. unfold heldb in *. rewrite Hhave0 in *. lia.
+      split; [left; split; [reflexivity|first [exact Herr|reflexivity]]|]. unfold heldb in *. rewrite Hhave0 in *. lia.
   - congruence.
   - (* I/O error *)
     pcbn. rewrite fold_app, (fold_mem_only m es0) by exact Hmem. rewrite FL.
@@ -242,4 +250,254 @@ Proof.
     rewrite n_alloc_app, n_free_app, LA, LF.
     split; [reflexivity|]. split; [reflexivity|]. split; [exact HM0|].
     split; [right; split; reflexivity|]. unfold heldb in *. rewrite Hhave0 in *. lia.
+Qed.
+
+(* ---- iv_fd_pump_try_output ---- *)
+
+Lemma mon_out_again m c req :
+  c_ok c = true -> c_err c = false -> a_pending (c_a c) <> [] -> req = zlen (a_pending (c_a c)) ->
+  mon_eff m c (EOut req OAgain) = c.
+Proof.
+  intros Hok Herr Hnn Hr. cbn [mon_eff]. apply isnil_false in Hnn. rewrite Herr, Hnn, Hr, Z.eqb_refl.
+  cbn [negb andb]. apply with_a_id, Hok.
+Qed.
+
+Lemma try_output_sim m relay cache p o c :
+  Mid m relay p (c_a c) -> c_ok c = true -> c_err c = false -> bytes p <> 0 ->
+  let r := try_output m relay cache p o in
+  let c' := fold_left (mon_eff m) (r_eff r) c in
+  r_oc r = Ok /\ c_ok c' = true /\ Mid m relay (r_p r) (c_a c') /\
+  ((r_ret r = 0 /\ c_err c' = false) \/ (r_ret r = -1 /\ c_err c' = true)) /\
+  r_cache r = cache /\ have_buf (r_p r) = have_buf p /\
+  n_alloc (r_eff r) = 0 /\ n_free (r_eff r) = 0.
+Proof.
+  intros HM Hok Herr Hnz.
+  assert (Hhave : have_buf p = true) by (destruct HM; auto).
+  assert (Hbytes : bytes p = zlen (a_pending (c_a c))) by (destruct HM; auto).
+  assert (Hbuf : buf p = a_pending (c_a c)) by (destruct HM; auto).
+  assert (Hnn : a_pending (c_a c) <> []).
+  { intros E. rewrite E in Hbytes. cbn in Hbytes. lia. }
+  assert (Hpos : 0 < bytes p) by (rewrite Hbytes; apply zlen_pos_cons, Hnn).
+  unfold try_output. rewrite Hhave. cbn [negb].
+  assert (Hh : is_sp m && (zlen (buf p) =? 0) = false).
+  { rewrite Hbuf, <- Hbytes. apply andb_false_iff. right. apply Z.eqb_neq, Hnz. }
+  rewrite Hh.
+  pose proof (fold_out_loop m c p (o_wr o) Hok Herr Hnn Hbytes) as FL.
+  pose proof (out_loop_mem m p (o_wr o)) as [LA LF].
+  pose proof (out_loop_got m p (o_wr o)) as LG.
+  pose proof (out_loop_not_intr m p (o_wr o)) as LI.
+  destruct (out_loop m p (o_wr o)) as [r es]. cbn [fst snd] in *.
+  assert (PRE : negb (c_err c) && negb (isnil (a_pending (c_a c))) &&
+                (bytes p =? zlen (a_pending (c_a c))) = true).
+  { apply isnil_false in Hnn. rewrite Herr, Hnn, Hbytes, Z.eqb_refl. reflexivity. }
+  destruct r as [bs| | | |].
+  - (* some bytes accepted *)
+    assert (Hb2 : bytes p = zlen (buf p)) by congruence.
+    destruct (LG bs Hb2 Hpos eq_refl) as (k & Hk & Hbs).
+    assert (Hlen : length bs = k) by (subst bs; rewrite firstn_length; lia).
+    assert (Hbne : bs <> []) by (subst bs; apply firstn_nonnil; [lia|congruence]).
+    assert (Hstrip : strip bs (a_pending (c_a c)) = Some (skipn k (a_pending (c_a c)))).
+    { subst bs. rewrite Hbuf. apply strip_firstn. }
+    assert (Hzbs : zlen bs = Z.of_nat k) by (unfold zlen; rewrite Hlen; reflexivity).
+    assert (Hrest : zlen (skipn k (a_pending (c_a c))) = bytes p - zlen bs).
+    { rewrite skipn_zlen, Hzbs, Hbytes. rewrite Hbuf in Hk. unfold zlen. lia. }
+    assert (Hsplit : bs ++ skipn k (a_pending (c_a c)) = a_pending (c_a c)).
+    { subst bs. rewrite Hbuf. apply firstn_skipn. }
+    set (p1 := set_buf (set_full p false) (skipn (length bs) (buf p)) (bytes p - zlen bs)).
+    assert (Hsf1 : saw_fin p1 = saw_fin p) by reflexivity.
+    assert (Hb1 : bytes p1 = bytes p - zlen bs) by reflexivity.
+    assert (STEP : mon_eff m c (EOut (bytes p) (OGot bs)) =
+                   {| c_a := {| a_relay := a_relay (c_a c); a_dead := a_dead (c_a c);
+                                a_pending := skipn k (a_pending (c_a c));
+                                a_consumed := a_consumed (c_a c); a_written := a_written (c_a c) ++ bs;
+                                a_eof := a_eof (c_a c); a_shut := a_shut (c_a c); a_full := false |};
+                      c_ok := true; c_err := false; c_bands := c_bands c |}).
+    { cbn [mon_eff]. rewrite Hstrip, PRE. apply isnil_false in Hbne. rewrite Hbne. unfold with_a.
+      rewrite Hok, Herr. reflexivity. }
+    assert (Hmfull1 : forall a', a_pending a' = skipn k (a_pending (c_a c)) -> a_full a' = false ->
+                                 mfull m a' = false).
+    { intros a' E1 E2. unfold mfull. rewrite E1, E2. destruct m; [|reflexivity].
+      apply Z.eqb_neq. rewrite Hrest. destruct HM. unfold cap, BUF_SIZE in *.
+      pose proof (zlen_pos_cons _ Hbne). lia. }
+    assert (Hstream1 : (a_written (c_a c) ++ bs) ++ skipn k (a_pending (c_a c)) = a_consumed (c_a c)).
+    { rewrite <- app_assoc, Hsplit. destruct HM; assumption. }
+    assert (Hcap1 : zlen (skipn k (a_pending (c_a c))) <= cap m).
+    { rewrite Hrest. destruct HM. pose proof (zlen_nonneg bs). lia. }
+    assert (Hbuf1 : buf p1 = skipn k (a_pending (c_a c))).
+    { subst p1. pcbn. rewrite Hlen, Hbuf. reflexivity. }
+    assert (Hrel : a_relay (c_a c) = relay) by (destruct HM; assumption).
+    assert (Hfull1 : full p1 = false) by reflexivity.
+    assert (Hhave1 : have_buf p1 = true) by exact Hhave.
+    destruct ((bytes p1 =? 0) && (saw_fin p1 =? 1)) eqn:Hdr.
+    + (* drained after EOF: relay it *)
+      apply andb_true_iff in Hdr. destruct Hdr as [Hz Hs1]. apply Z.eqb_eq in Hz, Hs1.
+      assert (Hnil : skipn k (a_pending (c_a c)) = []) by (apply zlen_zero_nil; lia).
+      assert (Heof : a_eof (c_a c) = true).
+      { destruct HM. destruct md_fin0 as [[F _]|[(F1 & F2 & F3)|(F1 & F2 & F3)]]; [lia|exact F2|lia]. }
+      assert (Hshut0 : a_shut (c_a c) = 0).
+      { destruct HM. rewrite md_shut0. rewrite <- Hsf1, Hs1. cbn. rewrite andb_false_r. reflexivity. }
+      rcbn. rewrite fold_app, FL, STEP, n_alloc_app, n_free_app, LA, LF.
+      rewrite Hnil in *.
+      destruct relay; cbn [fold_left mon_eff]; pcbn.
+      * rewrite Hrel, Heof, Hshut0. cbn [negb andb isnil Z.eqb n_alloc n_free].
+        split; [reflexivity|]. split; [reflexivity|]. split.
+        -- constructor; pcbn;
+             first [reflexivity | assumption | (right; right; repeat split; auto; fail)
+                   | (rewrite Hmfull1 by reflexivity; reflexivity) | (intros _ Hf; discriminate)
+                   | (intros _; exact Hhave) | (cbn; lia) | idtac].
+        -- split; [left; split; reflexivity|]. repeat split; first [reflexivity|exact Hhave1].
+      * cbn [n_alloc n_free].
+        split; [reflexivity|]. split; [reflexivity|]. split.
+        -- constructor; pcbn;
+             first [reflexivity | assumption | (right; right; repeat split; auto; fail)
+                   | (rewrite Hmfull1 by reflexivity; reflexivity) | (intros _ Hf; discriminate)
+                   | (intros _; exact Hhave) | (cbn; lia) | idtac].
+        -- split; [left; split; reflexivity|]. repeat split; first [reflexivity|exact Hhave1].
+    + (* more to write, or no EOF yet *)
+      rcbn. rewrite FL, STEP. pcbn.
+      split; [reflexivity|]. split; [reflexivity|]. split.
+      * constructor; pcbn; try assumption.
+        -- lia.
+        -- destruct HM. destruct md_fin0 as [F|[(F1 & F2 & F3)|(F1 & F2 & F3)]].
+           ++ left. exact F.
+           ++ right. left. repeat split; auto. intros E.
+              rewrite E in Hrest. cbn in Hrest. rewrite Hsf1, F1 in Hdr.
+              assert (bytes p1 =? 0 = true) by (apply Z.eqb_eq; lia).
+              rewrite H in Hdr. discriminate.
+           ++ congruence.
+        -- destruct HM. exact md_shut0.
+        -- rewrite Hmfull1 by reflexivity. reflexivity.
+        -- intros _ Hf. discriminate.
+        -- intros _. exact Hhave1.
+      * split; [left; split; reflexivity|]. repeat split; auto.
+  - (* would block *)
+    rcbn. rewrite FL, (mon_out_again m c _ Hok Herr Hnn Hbytes).
+    split; [reflexivity|]. split; [exact Hok|]. split; [exact HM|].
+    split; [left; split; [reflexivity|exact Herr]|]. repeat split; auto.
+  - congruence.
+  - (* error *)
+    rcbn. rewrite FL. cbn [mon_eff]. rewrite PRE. pcbn. rewrite Hok.
+    split; [reflexivity|]. split; [reflexivity|]. split; [exact HM|].
+    split; [right; split; reflexivity|]. repeat split; auto.
+  - (* write returned 0 *)
+    rcbn. rewrite FL. cbn [mon_eff]. rewrite PRE. pcbn. rewrite Hok.
+    split; [reflexivity|]. split; [reflexivity|]. split; [exact HM|].
+    split; [right; split; reflexivity|]. repeat split; auto.
+Qed.
+
+(* ---- __iv_fd_pump_pump ---- *)
+
+Definition call_ok (m : mode) (c : acc) (rc : Z) : Prop :=
+  (rc = -1 /\ c_err c = true) \/
+  (c_err c = false /\ rc = (if mfin (c_a c) then 0 else 1) /\
+   bands_eqb (c_bands c) (want_bands m (c_a c)) = true /\
+   (a_eof (c_a c) || fst (want_bands m (c_a c)) || snd (want_bands m (c_a c))) = true /\
+   implb (a_relay (c_a c) && mfin (c_a c)) (a_shut (c_a c) =? 1) = true).
+
+Lemma full_pending_nonnil m relay p a : Mid m relay p a -> mfull m a = true -> a_pending a <> [].
+Proof.
+  intros [] Hf. destruct m.
+  - unfold mfull, BUF_SIZE in Hf. apply Z.eqb_eq in Hf. intros E. rewrite E in Hf. cbn in Hf. lia.
+  - apply md_spfull0; [reflexivity|]. rewrite md_full0. exact Hf.
+Qed.
+
+Lemma final_bands m relay p a c :
+  Mid m relay p a -> c_a c = a -> c_ok c = true -> c_err c = false ->
+  let bands := if saw_fin p =? 0 then EBands (negb (full p)) (negb (bytes p =? 0))
+               else if saw_fin p =? 1 then EBands false true else EBands false false in
+  let rc := if saw_fin p =? 0 then 1 else if saw_fin p =? 1 then 1 else 0 in
+  let c' := mon_eff m c bands in
+  c_ok c' = true /\ c_a c' = a /\ call_ok m c' rc.
+Proof.
+  intros HM Ha Hok Herr bands rc c'.
+  assert (E : c' = {| c_a := a; c_ok := true; c_err := false;
+                      c_bands := match bands with EBands x y => Some (x, y) | _ => None end |}).
+  { subst c' bands. destruct (saw_fin p =? 0); [|destruct (saw_fin p =? 1)];
+      cbn [mon_eff]; rewrite Hok, Herr, Ha; reflexivity. }
+  rewrite E. pcbn. split; [reflexivity|]. split; [reflexivity|].
+  right. pcbn. split; [reflexivity|].
+  pose proof (full_pending_nonnil m relay p a HM) as FP.
+  destruct HM. unfold mfin, want_bands. subst bands rc.
+  destruct md_fin0 as [(F1 & F2)|[(F1 & F2 & F3)|(F1 & F2 & F3)]]; rewrite F1, F2; cbn [Z.eqb negb andb].
+  - split; [reflexivity|]. cbn [orb fst snd bands_eqb].
+    rewrite md_full0, md_bytes0, <- isnil_zlen, !eqb_reflx. split; [reflexivity|].
+    split.
+    + destruct (mfull m a) eqn:Hf; [|reflexivity]. cbn [negb orb].
+      apply isnil_false in FP; [|reflexivity]. rewrite FP. reflexivity.
+    + rewrite andb_false_r. reflexivity.
+  - apply isnil_false in F3. rewrite F3. cbn. rewrite andb_false_r. repeat split; reflexivity.
+  - rewrite F3. cbn [isnil]. cbn [bands_eqb fst snd eqb andb orb].
+    repeat split; try reflexivity.
+    rewrite md_shut0, md_relay0, F1. cbn. destruct relay; reflexivity.
+Qed.
+
+Lemma pump_inner_sim m relay cache p o a :
+  Mid m relay p a -> have_buf p = negb (isnil (a_pending a)) -> 0 <= cache <= MAX_CACHED_BUFS ->
+  let r := pump_inner m relay cache p o in
+  let c' := fold_left (mon_eff m) (r_eff r) (acc0 a) in
+  r_oc r = Ok /\ c_ok c' = true /\ Mid m relay (r_p r) (c_a c') /\ call_ok m c' (r_ret r) /\
+  r_cache r + heldb (r_p r) = cache + heldb p + n_alloc (r_eff r) - n_free (r_eff r) /\
+  0 <= r_cache r <= MAX_CACHED_BUFS.
+Proof.
+  intros HM Hhave Hcache. unfold pump_inner.
+  (* stage 1: input *)
+  set (r1 := if negb (full p) && (saw_fin p =? 0) then try_input m relay cache p o
+             else mkres Ok cache p 0 []).
+  assert (S1 : let c1 := fold_left (mon_eff m) (r_eff r1) (acc0 a) in
+               r_oc r1 = Ok /\ c_ok c1 = true /\ Mid m relay (r_p r1) (c_a c1) /\
+               ((r_ret r1 = 0 /\ c_err c1 = false) \/ (r_ret r1 = -1 /\ c_err c1 = true)) /\
+               r_cache r1 + heldb (r_p r1) = cache + heldb p + n_alloc (r_eff r1) - n_free (r_eff r1) /\
+               0 <= r_cache r1 <= MAX_CACHED_BUFS /\
+               (bytes (r_p r1) <> 0 -> have_buf (r_p r1) = true)).
+  { subst r1. destruct (negb (full p) && (saw_fin p =? 0)) eqn:E.
+    - apply andb_true_iff in E. destruct E as [E1 E2]. apply negb_true_iff in E1. apply Z.eqb_eq in E2.
+      assert (Hnb : have_buf p = false -> bytes p = 0).
+      { intros Hb. rewrite Hb in Hhave. destruct HM. rewrite md_bytes0.
+        destruct (a_pending a); [reflexivity|discriminate]. }
+      pose proof (try_input_sim m relay cache p o (acc0 a) HM eq_refl eq_refl E1 E2 Hcache Hnb) as T.
+      cbv zeta in T. destruct T as (T1 & T2 & T3 & T4 & T5 & T6).
+      cbv zeta. csplit; try assumption; try lia. destruct T3; assumption.
+    - cbv zeta. rcbn. cbn [fold_left n_alloc n_free]. pcbn. csplit; auto; try lia. destruct HM; assumption. }
+  clearbody r1. cbv zeta in S1. destruct S1 as (A1 & A2 & A3 & A4 & A5 & A6 & A7).
+  rewrite A1.
+  destruct A4 as [[R1 E1]|[R1 E1]].
+  2:{ (* input failed *)
+    rewrite R1. cbn [Z.eqb negb]. rcbn.
+    csplit; try assumption; try lia; try reflexivity. left. split; [reflexivity|exact E1]. }
+  rewrite R1. cbn [Z.eqb negb].
+  (* stage 2: output *)
+  set (c1 := fold_left (mon_eff m) (r_eff r1) (acc0 a)) in *.
+  set (r2 := if negb (bytes (r_p r1) =? 0) then try_output m relay (r_cache r1) (r_p r1) o
+             else mkres Ok (r_cache r1) (r_p r1) 0 []).
+  assert (S2 : let c2 := fold_left (mon_eff m) (r_eff r2) c1 in
+               r_oc r2 = Ok /\ c_ok c2 = true /\ Mid m relay (r_p r2) (c_a c2) /\
+               ((r_ret r2 = 0 /\ c_err c2 = false) \/ (r_ret r2 = -1 /\ c_err c2 = true)) /\
+               r_cache r2 = r_cache r1 /\ have_buf (r_p r2) = have_buf (r_p r1) /\
+               n_alloc (r_eff r2) = 0 /\ n_free (r_eff r2) = 0).
+  { subst r2. destruct (negb (bytes (r_p r1) =? 0)) eqn:E.
+    - apply negb_true_iff, Z.eqb_neq in E.
+      exact (try_output_sim m relay (r_cache r1) (r_p r1) o c1 A3 A2 E1 E).
+    - cbv zeta. rcbn. cbn [fold_left n_alloc n_free]. csplit; auto. }
+  clearbody r2. cbv zeta in S2. destruct S2 as (B1 & B2 & B3 & B4 & B5 & B6 & B7 & B8).
+  rewrite B1.
+  assert (FA : fold_left (mon_eff m) (r_eff r1 ++ r_eff r2) (acc0 a) = fold_left (mon_eff m) (r_eff r2) c1).
+  { rewrite fold_app. reflexivity. }
+  assert (ACC : r_cache r2 + heldb (r_p r2) =
+                cache + heldb p + n_alloc (r_eff r1 ++ r_eff r2) - n_free (r_eff r1 ++ r_eff r2)).
+  { rewrite n_alloc_app, n_free_app, B7, B8, B5. unfold heldb in *. rewrite B6. lia. }
+  destruct B4 as [[R2 E2]|[R2 E2]].
+  2:{ (* output failed *)
+    rewrite R2. cbn [Z.eqb negb]. rcbn. rewrite FA.
+    csplit; try assumption; try lia; try reflexivity. left. split; [reflexivity|exact E2]. }
+  rewrite R2. cbn [Z.eqb negb].
+  set (c2 := fold_left (mon_eff m) (r_eff r2) c1) in *.
+  pose proof (final_bands m relay (r_p r2) (c_a c2) c2 B3 eq_refl B2 E2) as FB.
+  cbv zeta in FB.
+  assert (F012 : saw_fin (r_p r2) = 0 \/ saw_fin (r_p r2) = 1 \/ saw_fin (r_p r2) = 2).
+  { destruct B3. destruct md_fin0 as [[F _]|[[F _]|[F _]]]; auto. }
+  destruct F012 as [F|[F|F]]; rewrite F in *; cbn [Z.eqb] in *; rcbn;
+    rewrite fold_app, FA; cbn [fold_left];
+    destruct FB as (G1 & G2 & G3); rewrite G2;
+    rewrite !n_alloc_app, !n_free_app in *; cbn [n_alloc n_free];
+    csplit; try assumption; try lia; try reflexivity.
 Qed.
